@@ -70,7 +70,7 @@ JudgeResize(pre, r) ==
   /\ (~pre.t.alt /\ pre.t.lim = -1) => ResizeTextOK(pre.t, r.vt.t)                    \* C10
   /\ (CheckDump => DumpOK(r.vt))
 
-Behaviour(h, st) == "@@ BEHAVIOUR " \o ToJson([init |-> h.init, ops |-> h.ops, st |-> st])
+Behaviour(h, st, ch) == "@@ BEHAVIOUR " \o ToJson([init |-> h.init, ops |-> h.ops, st |-> st, ch |-> ch])
 
 Init ==
   \E sz \in Sizes, lim \in Limits, fill \in Fills :
@@ -78,7 +78,7 @@ Init ==
     /\ vt = r.vt
     /\ hist = [init |-> <<sz[1], sz[2], lim>>, ops |-> <<[k |-> "fs", s |-> fill]>>]
     /\ ok = (GeomOK(r.vt) /\ Bound(r.vt) /\ (CheckDump => DumpOK(r.vt)))
-    /\ Emit => PrintT(Behaviour(hist, vt))
+    /\ Emit => PrintT(Behaviour(hist, vt, r.ch))
 
 Feed ==
   \E fn \in Alphabet(vt.t) :
@@ -88,7 +88,7 @@ Feed ==
     IN /\ vt' = r.vt
        /\ hist' = h
        /\ ok' = (ok /\ JudgeFn(vt, fn, r))
-       /\ Emit => PrintT(Behaviour(h, r.vt))
+       /\ Emit => PrintT(Behaviour(h, r.vt, r.ch))
 
 Resize ==
   \E sz \in Resizes(vt.t) :
@@ -97,7 +97,7 @@ Resize ==
     IN /\ vt' = r.vt
        /\ hist' = h
        /\ ok' = (ok /\ JudgeResize(vt, r))
-       /\ Emit => PrintT(Behaviour(h, r.vt))
+       /\ Emit => PrintT(Behaviour(h, r.vt, r.ch))
 
 Next == Len(hist.ops) <= MaxDepth /\ (Feed \/ Resize)
 Spec == Init /\ [][Next]_vars
